@@ -46,7 +46,7 @@ ASSUMPTIONS = [
     "age == expiration exactly is unspecified; expiration=0 and unhashable arguments are not generated",
     "identity-hashed receivers in the base workload; ==-equal distinct receivers run as a separate family",
 ]
-MINIMUMS = {"monitor:required-hit": 20000, "monitor:right-key": 20000, "monitor:capacity": 20000, "evictions_forced": 2000, "expiry_boundary_crossed": 2000, "required_hit_after_reorder": 300, "histories_with_hash_colliding_keys": 100, "recursive_histories": 100}
+MINIMUMS = {"monitor:required-hit": 20000, "monitor:right-key": 20000, "monitor:capacity": 20000, "evictions_forced": 2000, "expiry_boundary_crossed": 2000, "required_hit_after_reorder": 300, "histories_with_hash_colliding_keys": 100, "recursive_histories": 100, "expired_while_in_flight": 10}
 JOBS = {"quick": 4, "thorough": 16}
 LEVEL_TEXT = (
     "All histories up to the tier's length (quick 5-6, thorough 7) over 3 typed-distinct keys and 2 dyadic clock advances are run for every "
@@ -398,6 +398,81 @@ def run_recursive(R: Recorder, case: dict[str, Any], verbose: bool = False) -> N
     R.monitor("right-key", out["tag"] == (who, depth) and out["again_tag"] == (who, depth), where={"flavour": flavour, "kind": "wrong-arguments", "reentrant": True}, detail=f"chain({depth}) returned results tagged {out['tag']} / {out['again_tag']}", case=case)
 
 
+def run_inflight(R: Recorder, case: dict[str, Any], verbose: bool = False) -> None:
+    """async flavours: a second call with the same key arrives while the first invocation is still running, after the clock advanced
+    by a fraction / a multiple of the expiration: unexpired -> answered by the running invocation, expired -> a new invocation"""
+    from haiway import cache
+
+    flavour, exp, adv, order = case["flavour"], case["exp"], case["advance"], case["release"]
+    clock = VClock()
+    inv: list[dict[str, Any]] = []
+    gates: dict[int, asyncio.Future[None]] = {}
+    deco = cache(limit=2, expiration=exp)
+
+    async def body(who: str | None, x: int) -> Result:
+        k = len(inv) + 1
+        rec = {"k": k, "start": clock.now}
+        inv.append(rec)
+        gates[k] = asyncio.get_running_loop().create_future()
+        await gates[k]
+        return Result((who, x, k, rec["start"]))
+
+    if flavour == "async":
+        @deco
+        async def fn(x: int) -> Result:
+            return await body(None, x)
+        call = fn
+    else:
+        class H(Receiver):
+            @deco
+            async def fn(self, x: int) -> Result:
+                return await body(self.name, x)
+        call = H("A").fn
+    out: dict[str, Any] = {}
+
+    async def main(loop: Any) -> None:
+        t1 = loop.create_task(call(1))
+        await asyncio.sleep(0)
+        await asyncio.sleep(0)
+        clock.advance(adv)
+        arrival = clock.now
+        t2 = loop.create_task(call(1))
+        await asyncio.sleep(0)
+        await asyncio.sleep(0)
+        out["invocations_after_second_arrival"] = len(inv)
+        for k in (sorted(gates) if order == "old-first" else sorted(gates, reverse=True)):
+            gates[k].set_result(None)
+            await asyncio.sleep(0)
+            await asyncio.sleep(0)
+        r1, r2 = await asyncio.gather(t1, t2)
+        out["r1"], out["r2"], out["arrival"] = r1.tag, r2.tag, arrival
+
+    with patched_time(clock):
+        status, value, loop = run_virtual(main, clock=clock, max_iterations=20000)
+    expired = adv > exp
+    R.case(case, nontrivial=True)
+    R.count("second_call_while_first_in_flight")
+    if expired:
+        R.count("expired_while_in_flight")
+    where = {"flavour": flavour, "exp": "set", "receivers": "identity", "in_flight": True}
+    if verbose:
+        print(status, value, out, inv)
+    if status != "ok":
+        R.monitor("right-key", False, where={**where, "kind": f"history-{status}"}, detail=f"in-flight history ended {status}: {value!r}", case=case)
+        return
+    n = out["invocations_after_second_arrival"]
+    if adv == exp:
+        R.monitor("unexpired", None)
+        return
+    if expired:
+        age = out["arrival"] - out["r2"][3]
+        R.monitor("unexpired", n == 2 and age <= exp, where={**where, "kind": "served-expired"},
+                  detail=f"second call arrived {adv} after the first (expiration {exp}) while the first invocation was still running: {n} invocation(s); it received the value of invocation #{out['r2'][2]} started {age} before its arrival", case=case)
+    else:
+        R.monitor("required-hit", n == 1 and out["r2"] == out["r1"], where={**where, "kind": "miss-on-required-hit"},
+                  detail=f"second call arrived {adv} after the first (expiration {exp}, unexpired) while the first invocation was running: {n} invocations, results {out['r1']} / {out['r2']}", case=case)
+
+
 FLAVOURS = ("sync", "async", "sync-method", "async-method")
 KEYS3 = {
     False: [(None, (1, 0)), (None, (1.0, 0)), (None, (True, 0))],
@@ -464,6 +539,10 @@ def run(R: Recorder, tier: str, seed: int, shard: int, nshards: int) -> None:
                     run_recursive(R, {"recursive": True, "flavour": flavour, "limit": limit, "depth": depth})
             for depth in (1, 3):
                 run_recursive(R, {"recursive": True, "flavour": flavour, "limit": 1, "depth": depth, "bare": True})
+        for flavour in ("async", "async-method"):
+            for exp_, adv in itertools.product((1.0, 2.5), (0.25, 0.5, 1.0, 1.5, 2.5, 3.0, 8.0)):
+                for order in ("old-first", "new-first"):
+                    run_inflight(R, {"inflight": True, "flavour": flavour, "exp": exp_, "advance": adv, "release": order})
         argnames.check(R, "arguments", argname_wrappers())
         stacking.check_cache(R, "required-hit")
     R.flags["exhaustive_core"] = f"all histories up to length {EXH_LEN[tier]} over 3 keys + 2 advances x 4 flavours x limits 1-3 x expirations (none, 1, 2.5)"
@@ -487,6 +566,9 @@ def replay(R: Recorder, case: dict[str, Any]) -> None:
         return
     if case.get("recursive"):
         run_recursive(R, case, verbose=True)
+        return
+    if case.get("inflight"):
+        run_inflight(R, case, verbose=True)
         return
     if "stacking" in case:
         stacking.check_cache(R, "required-hit", only=case["stacking"])
